@@ -187,6 +187,60 @@ func Harness_C13_NoSharing(format int) {
 	verif.Cover("unshared")
 }
 
+// Harness_C13_IncludeChain: Top3 includes Mid3 includes Base3, Plain3 likewise;
+// only Base3 declares defaults (Top3 adds one of its own, Plain3 none, Mid3
+// none). Every level of the chain gets Base3's defaults when the document
+// omits them, keeps supplied values, and the default instances carry them.
+func Harness_C13_IncludeChain(format int) {
+	hasBd := verif.Bool()
+	var doc string
+	switch {
+	case format == 0 && hasBd:
+		doc = `{"bd":9}`
+	case format == 0:
+		doc = `{}`
+	case hasBd:
+		doc = `(bd:9)`
+	default:
+		doc = `()`
+	}
+	wantBd := int32(5)
+	if hasBd {
+		wantBd = 9
+	}
+	check := func(b *vt.Base3, who string) {
+		verif.Assert(b.Bd != nil && *b.Bd == wantBd, who+": int default declared two includes away is missing or overrode a supplied value")
+		verif.Assert(b.Bs != nil && len(*b.Bs) == 1 && (*b.Bs)[0] == "x", who+": array default declared two includes away is missing")
+	}
+	switch verif.Choose(4) {
+	case 0:
+		v := new(vt.Base3)
+		verif.Assert(v.UnmarshalRestLi(c13Reader(format, doc)) == nil, "decode Base3")
+		check(v, "Base3")
+	case 1:
+		v := new(vt.Mid3)
+		verif.Assert(v.UnmarshalRestLi(c13Reader(format, doc)) == nil, "decode Mid3")
+		check(&v.Base3, "Mid3")
+	case 2:
+		v := new(vt.Top3)
+		verif.Assert(v.UnmarshalRestLi(c13Reader(format, doc)) == nil, "decode Top3")
+		check(&v.Mid3.Base3, "Top3")
+		verif.Assert(v.Own != nil && *v.Own == "o", "Top3: own default missing")
+	default:
+		v := new(vt.Plain3)
+		verif.Assert(v.UnmarshalRestLi(c13Reader(format, doc)) == nil, "decode Plain3")
+		check(&v.Mid3.Base3, "Plain3")
+	}
+	if !hasBd {
+		t := vt.NewTop3WithDefaultValues()
+		check(&t.Mid3.Base3, "NewTop3WithDefaultValues")
+		// (only constructors of records with a default of their own are used:
+		// whether the others exist is the generator's choice, and a harness
+		// that does not compile decides nothing)
+	}
+	verif.Cover("decoded")
+}
+
 func Harness_C13_Twin(format int) {
 	present := make([]bool, len(c13Fields))
 	present[0] = verif.Bool()
